@@ -14,3 +14,8 @@ CLAIMED["C12"] = {
 }
 for _p in ("C12", "C13"):
     NA.pop(_p, None)
+CLAIMED["C17"] = {
+    "text": "Bounded symbolic model checking of the real ProofGraph: every history of K insert_proof/invalidate_handle operations over N handles (quick 3x3... see TIERS), premise sets of any acyclic shape in ANY insertion order (dependents before premises included), against an independent justification-liveness fixpoint; observed through get_node(..).valid and is_proven.",
+    "note": "One distinct key per handle; invalidated handles are not reused as premises (property quantifier). Trusted: rsym + library model, z3, reference model. Bounded.",
+}
+NA.pop("C17", None)
